@@ -40,16 +40,20 @@ def tracer(frame, event, arg):
 def main():
     payload = json.load(open(sys.argv[1]))
     n = 0
+    excs = []
     sys.settrace(tracer)
     try:
-        for case in payload["cases"]:
-            for op in case["ops"]:
+        for ci, case in enumerate(payload["cases"]):
+            for oi, op in enumerate(case["ops"]):
                 op = dict(op, timeout=max(60, int(op.get("timeout", 20))))
-                WB.run_op(op, case["c1"], case["c2"])
+                r = WB.run_op(op, case["c1"], case["c2"])
                 n += 1
+                if "exc" in r or r.get("nonfinite"):
+                    excs.append(dict(case=case.get("idx", ci), op=oi, fn=r["fn"], exc=r.get("exc"), exc_msg=r.get("exc_msg"),
+                                     nonfinite=r.get("nonfinite"), tb=r.get("tb", "")[-500:], n_points=r.get("n_points")))
     finally:
         sys.settrace(None)
-    json.dump(dict(calls=n, hits={k: sorted(v) for k, v in HITS.items()}), open(sys.argv[2], "w"))
+    json.dump(dict(calls=n, hits={k: sorted(v) for k, v in HITS.items()}, exceptions=excs), open(sys.argv[2], "w"))
 
 
 if __name__ == "__main__":
